@@ -44,7 +44,7 @@
 //!   LB <entry> <bo> <phase> <L> <present>            an array whose length field says L with <present> zero bytes of content
 //!                                                    actually there (built here: 64 MiB do not go through the line protocol);
 //!                                                    entry = vr:<sig> | up:<sig> | ut:<type>, sig/type one of ay at ab as a{yy}
-use rbverif::wirelib::{ArrN, BBytes, BPath, BSig, BStr, CowA, Fd, Path, Sig, SliceR, Var, F64};
+use rbverif::wirelib::{ArrN, BBytes, BPath, BSig, BStr, CowA, Fd, FdDyn, Path, Sig, SliceR, Var, F64};
 use rbverif::{hex, unhex};
 use rustbus::message_builder::{MarshalledMessage, MarshalledMessageBody};
 use rustbus::params::{Base, Container, Param};
@@ -155,6 +155,18 @@ pub enum DRec {
     Leaf(u8),
     Node(Vec<DRec>),
 }
+#[derive(Marshal, Unmarshal, Signature, Debug)]
+pub enum DE2 {
+    P(String),
+    Q(u32, u32),
+    R { m: HashMap<String, u32>, v: Vec<(u8, String)> },
+    S(DS1),
+}
+type VecU64 = Vec<u64>;
+type VecStr = Vec<String>;
+type MapUS = HashMap<u32, String>;
+dbus_variant_sig!(MS2, A => u8; B => VecU64; C => MapUS; D => bool);
+dbus_variant_var!(MV2, X => u64; Y => VecStr; Z => TupUUS);
 type MapSU = HashMap<String, (i32, u8, (u64, String))>;
 type TupUUS = (u32, u32, String);
 dbus_variant_sig!(MS1, CaseU => u32; CaseS => String; CaseMap => MapSU; CaseT => TupUUS);
@@ -168,7 +180,7 @@ dbus_variant_var!(MV1, CaseStr => StrRef<'buf>; CaseI => i32; CaseP => PathRef<'
 /// names of the types that are not in the catalogue (borrowed types, derived types, macro enums)
 const EXTRA: &[&str] = &[
     "&[u8]", "&str", "Cow[u8]", "Cow[u16]", "Cow[u32]", "Cow[u64]", "Cow[i64]", "Cow[bool]", "Cow[String]", "ObjectPath<&str>", "SigWrap<&str>",
-    "Variant", "ParamVariant", "DS1", "DS2", "DS3", "DE1", "DRec", "MS1", "MSRec", "MV1", "Vec<DS1>", "Vec<DE1>", "Vec<MV1>", "(DS1,MS1)",
+    "Variant", "ParamVariant", "DS1", "DS2", "DS3", "DE1", "DE2", "DRec", "MS1", "MS2", "MSRec", "MV1", "MV2", "Vec<DS1>", "Vec<DE1>", "Vec<MV1>", "(DS1,MS1)",
     "Vec<Variant>", "HashMap<String,Variant>",
 ];
 
@@ -309,6 +321,9 @@ macro_rules! extra_types {
             "DS2" => Some($f::<DS2>($($args),*)),
             "DS3" => Some($f::<DS3>($($args),*)),
             "DE1" => Some($f::<DE1>($($args),*)),
+            "DE2" => Some($f::<DE2>($($args),*)),
+            "MS2" => Some($f::<MS2>($($args),*)),
+            "MV2" => Some($f::<MV2>($($args),*)),
             "DRec" => Some($f::<DRec>($($args),*)),
             "MS1" => Some($f::<MS1>($($args),*)),
             "MSRec" => Some($f::<MSRec>($($args),*)),
